@@ -90,11 +90,36 @@ func runC04(rc *RunCtx) {
 		panic(err)
 	}
 	defer func() { h.Shutdown() }()
-	must(h.Mount("rec", "rec", nil))
-	must(h.Policy("p", c04Policy))
-	_, err = h.RootWrite("rec/data/x", map[string]any{"value": "v0"})
-	must(err)
-	baseTokKeys := len(disk.RawKeys("sys/token/id/"))
+	// a quarter of the runs place the whole tree (tokens, mount, policy, leases,
+	// cubbyholes) in a child namespace: every request carries its header, every
+	// storage key sits under namespaces/<uuid>/
+	nsH, kp := "", ""
+	if tp.Pick(4) == 3 {
+		if r, err := h.Do("setup", Req{Op: logical.UpdateOperation, Path: "sys/namespaces/n1", Token: h.Root}); err != nil || (r != nil && r.IsError()) {
+			panic(fmt.Sprint("namespace: ", err, r))
+		}
+		nsH = "n1/"
+		for _, k := range disk.RawKeys("namespaces/") {
+			if parts := strings.SplitN(k, "/", 3); len(parts) == 3 {
+				kp = parts[0] + "/" + parts[1] + "/"
+				break
+			}
+		}
+		if kp == "" {
+			panic("namespace storage prefix not found")
+		}
+	}
+	rc.Cfg("in_namespace", nsH != "")
+	rootDoNS := func(op logical.Operation, path string, data map[string]any) {
+		r, err := h.Do("setup", Req{NS: nsH, Op: op, Path: path, Token: h.Root, Data: data})
+		if err != nil || (r != nil && r.IsError()) {
+			panic(fmt.Sprint("setup ", path, ": ", err, r))
+		}
+	}
+	rootDoNS(logical.UpdateOperation, "sys/mounts/rec", map[string]any{"type": "rec"})
+	rootDoNS(logical.UpdateOperation, "sys/policies/acl/p", map[string]any{"policy": c04Policy})
+	rootDoNS(logical.UpdateOperation, "rec/data/x", map[string]any{"value": "v0"})
+	baseTokKeys := len(disk.RawKeys(kp + "sys/token/id/"))
 	cubbyPrefix := ""
 	for _, k := range disk.RawKeys("core/") {
 		_ = k
@@ -122,14 +147,14 @@ func runC04(rc *RunCtx) {
 		if orphan {
 			path = "auth/token/create-orphan"
 		}
-		leasesBefore := disk.RawKeys("sys/expire/id/auth/token/")
-		resp, err := h.Do(tag, Req{Op: logical.UpdateOperation, Path: path, Token: tokenFor, Data: data})
+		leasesBefore := disk.RawKeys(kp + "sys/expire/id/auth/token/")
+		resp, err := h.Do(tag, Req{NS: nsH, Op: logical.UpdateOperation, Path: path, Token: tokenFor, Data: data})
 		if err != nil || resp == nil || resp.Auth == nil {
 			return nil
 		}
 		t.id, t.acc = resp.Auth.ClientToken, resp.Auth.Accessor
-		if nl := added(disk.RawKeys("sys/expire/id/auth/token/"), leasesBefore); len(nl) == 1 {
-			t.tokLease = strings.TrimPrefix(nl[0], "sys/expire/id/")
+		if nl := added(disk.RawKeys(kp + "sys/expire/id/auth/token/"), leasesBefore); len(nl) == 1 {
+			t.tokLease = strings.TrimPrefix(nl[0], kp+"sys/expire/id/")
 		}
 		if parent != nil {
 			parent.children = append(parent.children, t)
@@ -164,7 +189,7 @@ func runC04(rc *RunCtx) {
 			continue
 		}
 		if tp.Pick(2) == 0 {
-			resp, err := h.Do("setup", Req{Op: logical.ReadOperation, Path: "rec/creds/a", Token: t.id})
+			resp, err := h.Do("setup", Req{NS: nsH, Op: logical.ReadOperation, Path: "rec/creds/a", Token: t.id})
 			if err == nil && resp != nil && resp.Data != nil {
 				if id, ok := resp.Data["secret_id"].(string); ok {
 					t.secrets = append(t.secrets, id)
@@ -175,14 +200,15 @@ func runC04(rc *RunCtx) {
 			}
 		}
 		if tp.Pick(2) == 0 {
-			if _, err := h.Do("setup", Req{Op: logical.UpdateOperation, Path: "cubbyhole/mine", Token: t.id, Data: map[string]any{"v": "cubby-" + t.name}}); err == nil {
+			if _, err := h.Do("setup", Req{NS: nsH, Op: logical.UpdateOperation, Path: "cubbyhole/mine", Token: t.id, Data: map[string]any{"v": "cubby-" + t.name}}); err == nil {
 				t.cubby = true
 			}
 		}
 	}
-	for _, k := range disk.RawKeys("logical/") {
+	for _, k := range disk.RawKeys(kp + "logical/") {
 		if strings.HasSuffix(k, "/mine") {
-			cubbyPrefix = k[:strings.Index(k[len("logical/"):], "/")+len("logical/")+1]
+			rest := k[len(kp+"logical/"):]
+			cubbyPrefix = kp + "logical/" + rest[:strings.Index(rest, "/")+1]
 		}
 	}
 	rc.Cfg("tokens", len(all))
@@ -210,15 +236,15 @@ func runC04(rc *RunCtx) {
 		var r Req
 		switch method {
 		case "lease": // through the token's own lease
-			r = Req{Op: logical.UpdateOperation, Path: "sys/leases/revoke", Token: hh.Root, Data: map[string]any{"lease_id": x.tokLease}}
+			r = Req{NS: nsH, Op: logical.UpdateOperation, Path: "sys/leases/revoke", Token: hh.Root, Data: map[string]any{"lease_id": x.tokLease}}
 		case "revoke":
-			r = Req{Op: logical.UpdateOperation, Path: "auth/token/revoke", Token: hh.Root, Data: map[string]any{"token": x.id}}
+			r = Req{NS: nsH, Op: logical.UpdateOperation, Path: "auth/token/revoke", Token: hh.Root, Data: map[string]any{"token": x.id}}
 		case "self":
-			r = Req{Op: logical.UpdateOperation, Path: "auth/token/revoke-self", Token: x.id}
+			r = Req{NS: nsH, Op: logical.UpdateOperation, Path: "auth/token/revoke-self", Token: x.id}
 		case "accessor":
-			r = Req{Op: logical.UpdateOperation, Path: "auth/token/revoke-accessor", Token: hh.Root, Data: map[string]any{"accessor": x.acc}}
+			r = Req{NS: nsH, Op: logical.UpdateOperation, Path: "auth/token/revoke-accessor", Token: hh.Root, Data: map[string]any{"accessor": x.acc}}
 		case "orphan":
-			r = Req{Op: logical.UpdateOperation, Path: "auth/token/revoke-orphan", Token: hh.Root, Data: map[string]any{"token": x.id}}
+			r = Req{NS: nsH, Op: logical.UpdateOperation, Path: "auth/token/revoke-orphan", Token: hh.Root, Data: map[string]any{"token": x.id}}
 		}
 		resp, err := hh.Do(tag, r)
 		if err != nil {
@@ -292,7 +318,7 @@ func runC04(rc *RunCtx) {
 					return
 				}
 				start := s.Steps
-				resp, err := h.Do(tag, Req{Op: logical.UpdateOperation, Path: "auth/token/create", Token: o.tok.id, Data: map[string]any{"policies": []string{"p"}, "ttl": "1h"}})
+				resp, err := h.Do(tag, Req{NS: nsH, Op: logical.UpdateOperation, Path: "auth/token/create", Token: o.tok.id, Data: map[string]any{"policies": []string{"p"}, "ttl": "1h"}})
 				if err == nil && resp != nil && resp.Auth != nil {
 					c := &c04Tok{name: fmt.Sprintf("late%d", i), id: resp.Auth.ClientToken, acc: resp.Auth.Accessor, parent: o.tok, late: true, task: tag}
 					_ = start
@@ -302,11 +328,11 @@ func runC04(rc *RunCtx) {
 					s.mu.Unlock()
 				}
 			case "use":
-				h.Do(tag, Req{Op: logical.ReadOperation, Path: "rec/data/x", Token: o.tok.id})
+				h.Do(tag, Req{NS: nsH, Op: logical.ReadOperation, Path: "rec/data/x", Token: o.tok.id})
 			case "renew":
-				h.Do(tag, Req{Op: logical.UpdateOperation, Path: "auth/token/renew-self", Token: o.tok.id})
+				h.Do(tag, Req{NS: nsH, Op: logical.UpdateOperation, Path: "auth/token/renew-self", Token: o.tok.id})
 			case "creds":
-				resp, err := h.Do(tag, Req{Op: logical.ReadOperation, Path: "rec/creds/a", Token: o.tok.id})
+				resp, err := h.Do(tag, Req{NS: nsH, Op: logical.ReadOperation, Path: "rec/creds/a", Token: o.tok.id})
 				if err == nil && resp != nil && resp.Data != nil && resp.Secret != nil {
 					if id, ok := resp.Data["secret_id"].(string); ok {
 						s.mu.Lock()
@@ -315,7 +341,7 @@ func runC04(rc *RunCtx) {
 					}
 				}
 			case "cubby":
-				if _, err := h.Do(tag, Req{Op: logical.UpdateOperation, Path: "cubbyhole/late", Token: o.tok.id, Data: map[string]any{"v": "x"}}); err == nil {
+				if _, err := h.Do(tag, Req{NS: nsH, Op: logical.UpdateOperation, Path: "cubbyhole/late", Token: o.tok.id, Data: map[string]any{"v": "x"}}); err == nil {
 					o.tok.cubby = true
 				}
 			}
@@ -373,7 +399,7 @@ func runC04(rc *RunCtx) {
 	// without looking again - not the documented race.
 	relistVerdict := func(d *c04Tok) string {
 		ops := disk.OpsCopy()
-		const pfx = "sys/token/parent/"
+		pfx := kp + "sys/token/parent/"
 		dir, putAt := "", -1
 		for i, o := range ops {
 			if o.Task == d.task && (o.Op == "put" || o.Op == "tx-put") && strings.HasPrefix(o.Key, pfx) && !o.Err {
@@ -389,7 +415,7 @@ func runC04(rc *RunCtx) {
 		for i, o := range ops {
 			// (an attempt that an injected storage error refused counts: it
 			// marks the point where the walk had decided to remove the parent)
-			if (o.Op == "del" || o.Op == "tx-del") && o.Key == "sys/token/id/"+salted {
+			if (o.Op == "del" || o.Op == "tx-del") && o.Key == kp+"sys/token/id/"+salted {
 				delAt = i
 			}
 		}
@@ -457,21 +483,21 @@ func runC04(rc *RunCtx) {
 	}
 	probeDead := func(hh *CoreH, phase string) bool {
 		for _, d := range dead {
-			resp, err := hh.Do("probe", Req{Op: logical.ReadOperation, Path: "auth/token/lookup-self", Token: d.id})
+			resp, err := hh.Do("probe", Req{NS: nsH, Op: logical.ReadOperation, Path: "auth/token/lookup-self", Token: d.id})
 			if !isPermDenied(resp, err) {
 				sig := sigFor(d)
 				sig["phase"] = phase
 				s.Violate("C04", "revoked-token-accepted", sig, "%s: token %s (in the revoked tree of %s via %s) is still accepted: %v %v; plan %v", phase, d.name, x.name, method, resp, err, plan)
 				return false
 			}
-			resp, err = hh.Do("probe", Req{Op: logical.ReadOperation, Path: "rec/data/x", Token: d.id})
+			resp, err = hh.Do("probe", Req{NS: nsH, Op: logical.ReadOperation, Path: "rec/data/x", Token: d.id})
 			if !isPermDenied(resp, err) && err == nil {
 				sig := sigFor(d)
 				sig["phase"] = phase
 				s.Violate("C04", "revoked-token-accepted", sig, "%s: token %s still reads data after the revocation of %s", phase, d.name, x.name)
 				return false
 			}
-			resp, err = hh.Do("probe", Req{Op: logical.UpdateOperation, Path: "auth/token/lookup-accessor", Token: hh.Root, Data: map[string]any{"accessor": d.acc}})
+			resp, err = hh.Do("probe", Req{NS: nsH, Op: logical.UpdateOperation, Path: "auth/token/lookup-accessor", Token: hh.Root, Data: map[string]any{"accessor": d.acc}})
 			if err == nil && resp != nil && !resp.IsError() {
 				s.Probe("dead_token_accessor_still_resolves") // not part of the statement
 			}
@@ -502,7 +528,7 @@ func runC04(rc *RunCtx) {
 		// the end state must be clean all the same
 		s.Probe("checked_after_faults")
 	}
-	gotTok := len(disk.RawKeys("sys/token/id/")) - baseTokKeys
+	gotTok := len(disk.RawKeys(kp+"sys/token/id/")) - baseTokKeys
 	if gotTok < alive {
 		// fewer entries than expected: a token whose creation raced with the
 		// revocation was swept although it was acknowledged - not a matter of
@@ -577,7 +603,7 @@ func runC04(rc *RunCtx) {
 	if len(unrevoked) > 0 {
 		// was the lease registered after the revocation listed the token's leases?
 		ops := disk.OpsCopy()[:opsBeforeProbes]
-		for _, k := range disk.RawKeys("sys/expire/token/") {
+		for _, k := range disk.RawKeys(kp + "sys/expire/token/") {
 			dir := k[:strings.LastIndex(k, "/")+1]
 			put := -1
 			for i, o := range ops {
@@ -655,7 +681,7 @@ func runC04(rc *RunCtx) {
 				// leases of the dead tokens are gone on the restarted node as well
 				for _, d := range dead {
 					for _, lid := range d.leases {
-						lr, lerr := ch.Do("leasechk", Req{Op: logical.UpdateOperation, Path: "sys/leases/lookup", Token: ch.Root, Data: map[string]any{"lease_id": lid}})
+						lr, lerr := ch.Do("leasechk", Req{NS: nsH, Op: logical.UpdateOperation, Path: "sys/leases/lookup", Token: ch.Root, Data: map[string]any{"lease_id": lid}})
 						if lerr == nil && lr != nil && !lr.IsError() && lr.Data != nil {
 							s.Violate("C04", "lease-not-revoked-with-token", map[string]any{"method": method, "lease_registered_after_revocation_listed_leases": false, "after_crash_and_repeated_revocation": true},
 								"after a crash at write %d of %d of the revocation phase and a repeated, acknowledged revocation of %s the lease %s of dead token %s still exists: %v", k-logFrom, to-logFrom, x.name, lid, d.name, lr.Data)
